@@ -3,6 +3,9 @@ import Dashu.Model.Trans.Guards
 import Dashu.Model.Trans.Powi
 import Dashu.Model.Trans.PowiNeg
 import Dashu.Model.Trans.CertFloat
+import Dashu.Model.Trans.Series
+import Dashu.Model.Trans.SourceText
+import Dashu.Driver.TransEst
 /-
   Driver of group `trans` (C11).
 
@@ -13,13 +16,19 @@ import Dashu.Model.Trans.CertFloat
       f.powf <x> <y> | panic PowNegativeBase
       c.ln <x> d:<p> | ok …            obs.ln <x> | hang
 
-  This side does NOT mirror dashu's series.  It runs the model of the entry guards
+  This side runs the model of the entry guards
   (`Model/Trans/Guards.lean`); where they decide (a documented panic, a constant, `x¹`) it prints that
   requirement; otherwise it takes the claim `r` and runs the certificate test of `Model/Trans/Cert.lean`
   against the proved enclosures:   certified ⇒ the claim is echoed (so both sides agree);
   violation ⇒ `violation …` (a disagreement with a concrete input; the verdict is a theorem,
   `Props/C11.lean`); undecided (effort budget used) ⇒ the claim is echoed with the annotation
   ` #cert-undecided` — counted separately by the check, never a violation.
+
+  MIRROR (round 4): behind the guards the driver also runs the statement-by-statement mirror of
+  `exp_internal` / `ln_internal` / `iacoth` / `ln2` / `ln10` / `ln_base` / `powf` (`Model/Trans/Series.lean`, with the
+  `Float32` replica of the estimates, `Driver/TransEst.lean`) and compares significand, exponent and flag with
+  the claim: equal ⇒ the annotation key gets `+mirror-ok` (working precision and last series index as tags);
+  different ⇒ ` mirror-drift:…` in the compared payload (a broken correspondence, judged by `c11.py`).
 -/
 namespace Dashu.Driver.Trans
 open Dashu.IO Dashu.Driver Dashu.Model.Trans
@@ -194,6 +203,90 @@ def certUnary (fn : Fn) (a : FArg) (p : Nat) (claim : Claim) : Option String :=
   | .panic _ => some "required a-value-within-1ulp (no documented panic applies to this input)"
   | .other t => some ("required a-value-within-1ulp; observed " ++ t)
 
+def toFloatMode : RMode → Dashu.Model.Float.Mode
+  | .zero => .zero | .away => .away | .up => .up | .down => .down
+  | .halfEven => .halfEven | .halfAway => .halfAway
+
+/-! ### the series mirror -/
+
+def mirrorFuel : Nat := 1000000
+
+def envOf (a : FArg) : Env := ⟨a.base, toFloatMode a.mode, Dashu.Model.Float.coarseNone, Dashu.Driver.TransEst.est a.base⟩
+
+def mFlagStr : Option Dashu.Model.Float.Rounding → String
+  | none => "Exact"
+  | some r => "Inexact:" ++ Dashu.Model.Float.rName r
+
+/-- operands whose mirror run stays cheap: moderate exponents (the scaling of `ln` builds `2^s`) -/
+def mirrorable (a : FArg) : Bool := !a.x.inf && a.x.exp.natAbs ≤ 20000
+
+/-- cost rule of the mirror run (the model's digit counting is a division loop: ~0.1 s at 256 digits, ~5–40 s at
+    1024 digits of base 36, minutes at 3000): every case with `p·log2 B ≤ 1700` bits of working size is mirrored
+    (all precisions up to 1024 in bases 2 and 3, up to 511 in base 10, 328 in base 36), one case in four (chosen
+    by the operand's significand, so reproducibly) up to `p·log2 B ≤ 5300` (p = 1024 in every base), none above;
+    cases not mirrored carry the annotation `+mirror-skip` and are decided by the certificate alone, as before -/
+def mirrorBudget (a : FArg) (p : Nat) : Bool :=
+  p * a.base.log2 ≤ 1700 || (p * a.base.log2 ≤ 5300 && a.x.sig.natAbs % 4 == 1)
+
+/-- put `tag` into the key of the first annotation of an `ok` line (`… #cert-n=5` ↦ `… #cert-n+tag=5 …`) -/
+def annotate (s tag rest : String) : String :=
+  match s.splitOn " #" with
+  | h :: a :: more =>
+    let key := a.takeWhile (fun c => c != '=' && c != ' ')
+    " #".intercalate ((h ++ " #" ++ key.toString ++ "+" ++ tag ++ (a.drop key.toString.length).toString ++ rest) :: more)
+  | _ => s ++ " #" ++ tag ++ rest
+
+/-- compare the mirror's result with the claim -/
+def mirrorCmp (name : String) (res : Except String (Dashu.Model.Float.Rounded Dashu.Model.Float.FBigM × Trace))
+    (claim : Option (List String)) (s : String) : String :=
+  if !s.startsWith "ok " then s
+  else
+    match claim.map parseClaim with
+    | some (.value sig e _ _ text) =>
+      let cf := (text.splitOn " ").getLast!
+      let drift (m : String) : String :=
+        (s.splitOn " #").head! ++ " mirror-drift:" ++ name ++ "(Model/Trans/Series.lean) model=" ++ m
+      match res with
+      | .ok ((v, fl), tr) =>
+        if v.repr.signif = sig ∧ v.repr.exp = e ∧ mFlagStr fl = cf then
+          annotate s "mirror-ok" (" w=" ++ toString tr.workPrec ++ " k=" ++ toString tr.lastK)
+        else drift (intToHex v.repr.signif ++ "," ++ toString v.repr.exp ++ "," ++ mFlagStr fl)
+      | .error msg =>
+        if msg.startsWith "fuel" then annotate s "mirror-fuel" "" else drift (msg.replace " " "_")
+    | _ => s
+
+/-- does the entry reach the numerical body? -/
+def expEntryOrLn (fn : Fn) (a : FArg) (p : Nat) : Bool :=
+  (match fn with
+    | .exp => expEntry false a.x p
+    | .expm1 => expEntry true a.x p
+    | .ln => lnEntry a.base false a.x p
+    | .ln1p => lnEntry a.base true a.x p) == .compute
+
+def unaryMirror (fn : Fn) (a : FArg) (p : Nat) (claim : Option (List String)) (s : String) : String :=
+  if p = 0 ∨ !mirrorable a ∨ !s.startsWith "ok " then s
+  else if !mirrorBudget a p then (if expEntryOrLn fn a p then annotate s "mirror-skip" "" else s)
+  else
+    let x : Dashu.Model.Float.FRepr := ⟨a.x.sig, a.x.exp⟩
+    let en := match fn with
+      | .exp => expEntry false a.x p
+      | .expm1 => expEntry true a.x p
+      | .ln => lnEntry a.base false a.x p
+      | .ln1p => lnEntry a.base true a.x p
+    if en != .compute then s
+    else
+      let E := envOf a
+      match fn with
+      | .exp => mirrorCmp "exp_internal" (expBody mirrorFuel E p x false) claim s
+      | .expm1 => mirrorCmp "exp_internal" (expBody mirrorFuel E p x true) claim s
+      | .ln => mirrorCmp "ln_internal" (lnBody mirrorFuel E p x false) claim s
+      | .ln1p => mirrorCmp "ln_internal" (lnBody mirrorFuel E p x true) claim s
+
+def powfMirror (a b : FArg) (p : Nat) (claim : Option (List String)) (s : String) : String :=
+  if p = 0 ∨ !mirrorable a ∨ !mirrorable b ∨ !s.startsWith "ok " ∨ powfEntry a.x b.x p != .compute then s
+  else if !mirrorBudget a p then annotate s "mirror-skip" ""
+  else mirrorCmp "powf" (powfBody mirrorFuel (envOf a) p ⟨a.x.sig, a.x.exp⟩ ⟨b.x.sig, b.x.exp⟩) claim s
+
 def entryStr (en : Entry) (a : FArg) (p : Nat) (k : Unit → Option String) : Option String :=
   match en with
   | .panic kd => some (Dashu.Driver.panic kd.name)
@@ -215,7 +308,7 @@ def overflowTest (B : Nat) (x : Rat) : Nat → Nat → Option Bool
     else
       (if x / l.1 ≥ -lim then some false else if x / l.2 < -lim then some true else overflowTest B x fuel (2 * n + 64))
 
-def unary (fn : Fn) (a : FArg) (p : Nat) (claim : Option (List String)) : Option String :=
+def unaryCore (fn : Fn) (a : FArg) (p : Nat) (claim : Option (List String)) : Option String :=
   if !a.x.inf ∧ !a.small ∧ fn == .ln ∧ p ≠ 0 ∧ 0 < a.x.sig then
     -- ln of a float whose exponent is too large to write the value down: log (sig·B^ex) = log sig + ex·log B
     (do
@@ -248,10 +341,6 @@ def unary (fn : Fn) (a : FArg) (p : Nat) (claim : Option (List String)) : Option
     else do
       let c ← claim
       certUnary fn a p (parseClaim c)
-
-def toFloatMode : RMode → Dashu.Model.Float.Mode
-  | .zero => .zero | .away => .away | .up => .up | .down => .down
-  | .halfEven => .halfEven | .halfAway => .halfAway
 
 /-- tie of the mirrored powering loop (`Model/Trans/Powi.lean`, subject of `Props/C11Powi.lean`) to the code:
     for a non-negative exponent `n ≥ 2` at a limited precision the loop model must print the very digits the
@@ -336,7 +425,7 @@ def powfFloat (a b : FArg) (p : Nat) (claim : Option (List String)) : Option Str
     | .panic _ => some "required a-value-within-1ulp (no documented panic applies to this input)"
     | .other t => some ("required a-value-within-1ulp; observed " ++ t)
 
-def powf (a b : FArg) (p : Nat) (claim : Option (List String)) : Option String :=
+def powfCore (a b : FArg) (p : Nat) (claim : Option (List String)) : Option String :=
   entryStr (powfEntry a.x b.x p) a p fun _ =>
     if b.x.inf then some (Dashu.Driver.panic "Infinite")
     else if !b.small then none
@@ -379,6 +468,12 @@ def powf (a b : FArg) (p : Nat) (claim : Option (List String)) : Option String :
       | .panic _ => some "required a-value-within-1ulp (no documented panic applies to this input)"
       | .other t => some ("required a-value-within-1ulp; observed " ++ t)
 
+def unary (fn : Fn) (a : FArg) (p : Nat) (claim : Option (List String)) : Option String :=
+  (unaryCore fn a p claim).map (unaryMirror fn a p claim)
+
+def powf (a b : FArg) (p : Nat) (claim : Option (List String)) : Option String :=
+  (powfCore a b p claim).map (powfMirror a b p claim)
+
 def fnOf (s : String) : Option Fn :=
   match s with
   | "exp" => some .exp | "exp_m1" => some .expm1 | "ln" => some .ln | "ln_1p" => some .ln1p | _ => none
@@ -417,7 +512,16 @@ def run (kind name : String) (pre : List String) (claim : Option (List String)) 
 def tagOp (kind name : String) (r : Option String) : Option String :=
   r.map fun s => if s.startsWith "violation " then s ++ " op=" ++ kind ++ "." ++ name else s
 
+/-- `tie.formula <name> s:<utf-8 bytes of the statement found in the source>`: prints the statement the mirror
+    was written against (`Model/Trans/SourceText.lean`); the harness echoes the statement found, so a changed
+    source statement is a disagreement (judged as broken correspondence by `c11.py`) -/
+def tieFormula (args : List String) : Option String :=
+  match args with
+  | [name, _found] => (sourceFormula? name).map fun t => ok (bytesToStr t.toUTF8.toList)
+  | _ => none
+
 def dispatch : Dispatch := fun _W op args =>
+  if op == "tie.formula" then tieFormula args else
   let (pre, claim) := splitClaim args
   match op.splitOn "." with
   | ["obs", kind, name] =>
